@@ -10,19 +10,19 @@ TEXT = {
  "C02": "Make for Move proved: Ok iff legal, result == ref_apply, Err leaves everything unchanged, no panic; validity preserved (spec lemma); UCI/SAN values resolve only to such moves; chains by Verus",
  "C03": "make_move_unchecked == ref_apply on all six fields for every kind and colour, any counter values, derived sets well-formed pointwise",
  "C04": "unmake restores every field, hash and all 16 sets for every pseudo-legal or null move; arbitrary depth by Verus lemmas over the one-step contract; chain.pop / walker call unmake only with the recorded entry",
- "C05": "stored hash == from-scratch hash after every step (per kind and colour), zobrist_hash == definition and ignores counters, key-table facts, base case from try_from, history lemma",
+ "C05": "per kind and colour: make_move changes the stored hash by exactly the keys of the touched squares and of the changed side / rights / mark (Kani); XOR-fold lemma over an uninterpreted key function turns that into stored == from-scratch after every step (Verus); zobrist_hash == the fold over the key tables and ignores counters; key-table facts; base case from try_from; history lemma",
  "C06": "is_well_formed == geometry on all tuples, do_is_move_semilegal == reference pseudo-legality per kind and colour, generators as C01, partition lemma",
  "C07": "insufficient material, calc_outcome precedence, and has_legal_moves decomposed into dispatcher (Verus), early-exit of each sub-generator, legality filter, castling lemma",
- "C08": "FEN board field (per rank in quick, full board in thorough) and the five trailing fields round-trip against an independent encoder/reader; parse-format-parse on bounded accepted text",
+ "C08": "the five trailing FEN fields round-trip over their whole value domain (exhaustive native evaluation of the real functions, ~38 M records) against an independent writer; the board field: all 13^8 contents of three constant ranks in quick (Kani, bounded), symbolic rank and all 13^64 boards in thorough; parse-format-parse on finite text grammars (quick) and on bounded symbolic strings (thorough)",
  "C09": "candidate generators exact, minimal disambiguation over every admissible candidate list, check marks (Verus), into_move soundness and ambiguity, canonical text round trip",
  "C10": "UCI value <-> move round trip and kind inference on all boards, reader accepts iff a pseudo-legal move with those squares exists, text complete for the property's 20 481 strings",
  "C11": "try_from Ok iff reference validity on all 13^64 x ... raw boards, reported error holds, result normalised / well-formed / hashed, idempotence lemma",
- "C12": "BOUNDED: each parser on all UTF-8 strings up to a stated length: no panic, accepted values format back; 'any length' is not reached",
+ "C12": "BOUNDED: each parser on all UTF-8 strings up to a stated length (Kani) or on a stated finite text grammar (native evaluation): no panic, accepted values format back; 'any length' is not reached",
  "C13": "all chain functions extracted verbatim and verified by Verus for chains of any length against imported step contracts; equality bounded to lists of <= 3 moves",
  "C14": "calc_outcome / set_auto_outcome / Outcome::passes verbatim against the precedence relation of the statement (Verus); board-level outcome by C07",
  "C15": "leapers, pawns, bishop tables (all squares x 2^64), between tables (all pairs) proved; rook: lemma + exhaustive native evaluation of all mask subsets + bounds in quick, 64 direct proofs in thorough",
  "C16": "attackers / is_attacked / is_check / checkers == reference walk on all well-formed boards, both colours",
- "C17": "Walker verbatim by Verus for any length and interleaving; bounded Kani stand-ins for op sequences and for the printed lists of one fixed game; empty-chain list complete",
+ "C17": "Walker verbatim by Verus for any length and interleaving; the printed list of a chain without moves complete (Kani); bounded stand-ins by exhaustive native evaluation on six fixed games (all operation sequences <= 7, all list policies); Kani forms of those in thorough",
  "C18": "the reference rules commute with both mirrors (spec lemmas) and the implementation equals the reference for both colours (C01/C06/C07/C11/C16 obligations)",
  "C19": "every unsafe site mapped to obligations that execute it under Kani's pointer/bounds/unreachable checks or prove the callee's precondition; the 256-move capacity (A-CAP) is an explicit assumption, not decided",
  "C20": "index/char/text conversions over full domains, bitboard operations against a pointwise set model for all 2^64 sets, named constants against geometry",
